@@ -50,25 +50,3 @@ Definition c02_tol (d : nat) (L X : list (list Q)) (tr M : list (list (option Q)
   all2 (fun ma row => all2 (fun p v => entry_ok tol_1e12 (fst p) (snd p) v) (combine (fst ma) (snd ma)) row)
        (combine Mm Ma) M.
 
-(* ---------------- C04 ---------------------------------------------------------------------- *)
-
-Definition c04_pairs_exact (L : list (list fl)) (thr : fl) (P : list (list (list fl)))
-    (dec : list fl) (pred : list Z) : bool :=
-  fveq (@Src_query.pairs_decision_function FOps L P) dec &&
-  zveq (@Src_query.pairs_predict FOps L thr P) pred.
-
-Definition c04_trip_exact (L : list (list fl)) (T : list (list (list fl)))
-    (dec : list fl) (pred : list Z) (score : fl) : bool :=
-  fveq (@Src_query.triplets_decision_function FOps L T) dec &&
-  zveq (@Src_query.triplets_predict FOps L T) pred &&
-  feq (@Src_query.triplets_score FOps L T) score.
-
-Definition c04_quad_exact (L : list (list fl)) (Qs : list (list (list fl)))
-    (dec : list fl) (pred : list Z) (score : fl) : bool :=
-  fveq (@Src_query.quadruplets_decision_function FOps L Qs) dec &&
-  zveq (@Src_query.quadruplets_predict FOps L Qs) pred &&
-  feq (@Src_query.quadruplets_score FOps L Qs) score.
-
-(* ROC-AUC of the implementation against the Mann-Whitney count on exact squared distances *)
-Definition c04_auc (L : list (list Q)) (P : list (list (list Q))) (y : list Z) (auc_impl : Q) : bool :=
-  qwithin (auc_mw (@Src_query.pair_distance QOps L P) y) auc_impl tol_1e12.
